@@ -55,6 +55,8 @@ def render_reports(defs):
             L.append("  timeformat %s%s%s" % (q, d["timeformat"], q))
         if d["leaf"] is not None:
             L.append("  leaftasksonly %s" % ("true" if d["leaf"] else "false"))
+        if d.get("scenarios"):
+            L.append("  scenarios %s" % ", ".join(d["scenarios"]))     # the report shows the scenario it names FIRST
         L.append("}")
         out.append("\n".join(L))
     return "\n".join(out) + "\n"
@@ -83,7 +85,8 @@ def expected_rows(m, p, d, project_tf, sc=0):
             elif c == "priority":
                 row.append(None)     # inherited priority: rendering of the inherited value is not claimed
             elif c == "effort":
-                row.append("%.2f" % (t["effort_min"] / 60.0) if "effort_min" in t else None)
+                eff = t.get("sc_effort", {}).get(d.get("scenarios", [None])[0] if d.get("scenarios") else None, t.get("effort_min"))
+                row.append("%.2f" % (eff / 60.0) if "effort_min" in t else None)
             elif c == "cost":
                 cost = 0.0
                 for rid, sl in obs.per_task.get(tid_, {}).items():
@@ -126,7 +129,18 @@ def run_case(rnd, cs, job, acc):
     if project_tf:
         m["timeformat"] = project_tf
     defs = report_defs(rnd, m)
-    text = gen.render(m, trailer=render_reports(defs))
+    scen = None
+    SIDS = ["plan", "delayed", "alt"]
+    if rnd.random() < 0.12:
+        # several scenarios with different efforts; a report may name scenarios in any order and shows the first one
+        scen = ['scenario plan "p" {', '  scenario delayed "d"', '  scenario alt "a"', "}"]
+        for t in m["tasks"]:
+            if "effort_min" in t and not t.get("effort_inherited") and rnd.random() < 0.5:
+                t["sc_effort"] = {rnd.choice(SIDS[1:]): t["effort_min"] + rnd.choice([1, 2, 5]) * m["res"]}
+        for d in defs:
+            if rnd.random() < 0.7:
+                d["scenarios"] = rnd.sample(SIDS, rnd.randint(1, 3))
+    text = gen.render(m, scenarios=scen, trailer=render_reports(defs))
     outdir = tempfile.mkdtemp(prefix="c18-", dir=common.WORK)
     try:
         p, _ = sched.parse(text)
@@ -150,7 +164,7 @@ def run_case(rnd, cs, job, acc):
             if fp_project(p) != snap0:
                 acc.violation("C18", "generation-altered-the-schedule", dict(report=d["id"]), [], dict(rp_base, clause="generation-altered-the-schedule"))
                 snap0 = fp_project(p)
-            want, obs = expected_rows(m, p, d, project_tf)
+            want, obs = expected_rows(m, p, d, project_tf, sc=(SIDS.index(d["scenarios"][0]) if (scen and d.get("scenarios")) else 0))
             header = [d["titles"].get(c) for c in d["cols"]]
             # ---- CSV cells
             if not cs_rows:
